@@ -64,6 +64,7 @@ def gen_pool_case(ctx, rng, i, tag, retry=None, enqueue_fn_ok=True, return_resul
             'extra_pending': rng.choice([1, 2]) if directed_late else rng.choice([0, 0, 1, 2]), 'retry': rng.choice([True, True, False]) if retry is None else retry,
             'return_results': rng.choice([True, True, True, False]) if return_results is None else return_results,
             'input_mode': rng.choice(['iter', 'iter', 'callable']), 'slow': rng.choice([0.0, 0.0, 0.01]),
+            'linger': rng.choice([0.0, 0.0, 0.0, 0.5, 2.0]),
             'use_with': rng.random() < 0.5, 'policy': pol, 'knobs': knobs, 'sched_seed': ctx.case_seed(tag, i)}
 
 
@@ -84,7 +85,7 @@ class PoolRun:
     def make_pool(self, host, **kw):
         from pyworkers.pool import Pool
         c = self.case
-        return Pool(T.p_pool, kwargs={'poison': c['poison'], 'd': c.get('slow', 0.0)}, **kw)
+        return Pool(T.p_pool, kwargs={'poison': c['poison'], 'd': c.get('slow', 0.0), 'linger': c.get('linger', 0.0)}, **kw)
 
     def add_workers(self, pool, host):
         from pyworkers.worker import WorkerType
@@ -92,7 +93,8 @@ class PoolRun:
             kind = wd['kind']
             kw = {}
             if wd.get('fail_after') is not None:
-                kw['kwargs'] = {'poison': self.case['poison'], 'd': self.case.get('slow', 0.0), 'fail_after': wd['fail_after']}
+                kw['kwargs'] = {'poison': self.case['poison'], 'd': self.case.get('slow', 0.0), 'fail_after': wd['fail_after'],
+                                'linger': self.case.get('linger', 0.0)}
             if kind == 'premote':
                 kw['host'] = host
             wt = P.PROBES[kind] if wd.get('probe') else WorkerType[lib.base_kind(kind).upper()]
@@ -108,7 +110,8 @@ class PoolRun:
             ch = getattr(w, '_child', None)
             return ch is None or ch._st is None or ch._st.state == 'done'
         p = self.sim.procs.get(w.pid)
-        return p is None or p is self.sim.root_proc or not p.alive
+        # a worker whose run loop has ended (pipes closed, outcome sent) has died as a worker even if its process lingers
+        return p is None or p is self.sim.root_proc or not p.alive or p.run_done
 
     def run_pool(self, pool, inputs):
         c = self.case
